@@ -149,6 +149,95 @@ theorem splitFrame_progress {bs pl rest : Bytes} {h : Header} (hs : splitFrame b
   have := (splitFrame_spec hs).1; omega
 
 
+/-! ### bytes behind a complete frame do not matter to that frame -/
+
+theorem u16_append {bs r : Bytes} {v : Nat} (x : Bytes) (h : u16 bs = some (v, r)) : u16 (bs ++ x) = some (v, r ++ x) := by
+  match bs, h with
+  | a :: b :: t, h =>
+    simp only [u16, Option.some.injEq, Prod.mk.injEq] at h
+    obtain ⟨rfl, rfl⟩ := h
+    rfl
+
+theorem u32_append {bs r : Bytes} {v : Nat} (x : Bytes) (h : u32 bs = some (v, r)) : u32 (bs ++ x) = some (v, r ++ x) := by
+  match bs, h with
+  | a :: b :: c :: e :: t, h =>
+    simp only [u32, Option.some.injEq, Prod.mk.injEq] at h
+    obtain ⟨rfl, rfl⟩ := h
+    rfl
+
+theorem takeN_append {n : Nat} {bs a r : Bytes} (x : Bytes) (h : takeN n bs = some (a, r)) :
+    takeN n (bs ++ x) = some (a, r ++ x) := by
+  obtain ⟨e, la⟩ := takeN_spec h
+  subst e
+  unfold takeN
+  have : ¬ (a ++ r ++ x).length < n := by simp only [List.length_append]; omega
+  rw [if_neg this, List.append_assoc, List.take_left' la, List.drop_left' la]
+
+theorem parseHeader_append {bs r : Bytes} {h : Header} (x : Bytes) (hp : parseHeader bs = some (h, r)) :
+    parseHeader (bs ++ x) = some (h, r ++ x) := by
+  unfold parseHeader at hp ⊢
+  cases h1 : u16 bs with
+  | none => simp [h1] at hp
+  | some p1 =>
+    obtain ⟨v1, r1⟩ := p1
+    simp only [h1] at hp
+    rw [u16_append x h1]
+    simp only
+    cases h2 : u16 r1 with
+    | none => simp [h2] at hp
+    | some p2 =>
+      obtain ⟨v2, r2⟩ := p2
+      simp only [h2] at hp
+      rw [u16_append x h2]
+      simp only
+      cases h3 : u32 r2 with
+      | none => simp [h3] at hp
+      | some p3 =>
+        obtain ⟨v3, r3⟩ := p3
+        simp only [h3] at hp
+        rw [u32_append x h3]
+        simp only
+        cases h4 : u32 r3 with
+        | none => simp [h4] at hp
+        | some p4 =>
+          obtain ⟨v4, r4⟩ := p4
+          simp only [h4] at hp
+          rw [u32_append x h4]
+          simp only
+          cases h5 : takeN 8 r4 with
+          | none => simp [h5] at hp
+          | some p5 =>
+            obtain ⟨v5, r5⟩ := p5
+            simp only [h5] at hp
+            rw [takeN_append x h5]
+            simp only
+            cases h6 : u32 r5 with
+            | none => simp [h6] at hp
+            | some p6 =>
+              obtain ⟨v6, r6⟩ := p6
+              simp only [h6, Option.some.injEq, Prod.mk.injEq] at hp
+              obtain ⟨rfl, rfl⟩ := hp
+              rw [u32_append x h6]
+
+/-- a complete frame is found in front of whatever follows it -/
+theorem splitFrame_append {bs pl rest : Bytes} {h : Header} (x : Bytes) (hs : splitFrame bs = some (h, pl, rest)) :
+    splitFrame (bs ++ x) = some (h, pl, rest ++ x) := by
+  unfold splitFrame at hs ⊢
+  cases hp : parseHeader bs with
+  | none => simp [hp] at hs
+  | some p =>
+    obtain ⟨h', r⟩ := p
+    simp only [hp] at hs
+    rw [parseHeader_append x hp]
+    simp only
+    cases ht : takeN h'.len r with
+    | none => simp [ht] at hs
+    | some q =>
+      obtain ⟨pl', rest'⟩ := q
+      simp only [ht, Option.some.injEq, Prod.mk.injEq] at hs
+      obtain ⟨rfl, rfl, rfl⟩ := hs
+      rw [takeN_append x ht]
+
 /-! ### the stream loop: progress and termination without the fuel -/
 
 theorem serveStream_nil (fate : Nat → Bool) (fuel k : Nat) (d : Dev) : serveStream fate fuel k d [] = (d, []) := by
